@@ -27,7 +27,7 @@ for f in $FILES; do
   sig=$(echo "$log" | grep -m1 -A1 '^VIOLATION' | tail -1 | sed 's/^ *//')
   case $code in
     1) verdict=CAUGHT;;
-    0) if [ $MODE = seeded ] && [ "$(jq -r '.expect_alarm // true' "$(dirname "$f")/meta.json")" = "false" ]; then verdict="NOT-ALARMED(by design, see meta.json)"; else verdict=MISSED; fail=1; fi;;
+    0) if [ $MODE = seeded ] && [ "$(jq -r 'if .expect_alarm == false then "false" else "true" end' "$(dirname "$f")/meta.json")" = "false" ]; then verdict="NOT-ALARMED(by design, see meta.json)"; else verdict=MISSED; fail=1; fi;;
     *) verdict="HARNESS-ERROR($(echo "$log" | grep -m1 HARNESS-ERROR | cut -c1-160))"; fail=1;;
   esac
   echo "$name property=$prop $verdict in ${secs}s  $sig" | tee -a "$OUT.tmp"
